@@ -14,20 +14,31 @@ ID = "C35"
 LEVEL = "exploration"
 TECHNIQUE = "runtime monitoring: differential against a literal reference fold + conservation count, per batch"
 RULE = ("seeded sequences of 1-24 error-log entries over 3 messages x 2 severities, times on a grid with zero, "
-        "positive and (in a third of the cases) negative steps, cut into batches of 0-5 entries, with whole-batch "
-        "redeliveries; aggregated log compared with the reference after every batch. distinct = hash of the entry "
+        "positive and (in a third of the cases) negative steps, cut into batches of 0-5 entries, with redeliveries "
+        "(the engine resends what it got no reply for): a whole batch again, the last k entries of a batch again in "
+        "front of the next batch (partial overlap, possibly followed by a new later entry), two consecutive batches "
+        "again as one; a quarter of the cases are built around one run of 3-8 repeats of a single entry so that the "
+        "redelivered entries carry times EARLIER than the aggregated latest time; aggregated log compared with the "
+        "reference after every batch. distinct = hash of the entry "
         "sequence + batch cut; non-trivial = at least one merge of increasing times and at least two aggregated "
         "entries in the judged prefix")
 ASSUMPTIONS = [
     "the statement is read as a left fold over the concatenated batches: an entry is compared with the last "
     "aggregated entry only ('consecutive')",
-    "an entry with the same message/severity as the last aggregate and an EARLIER time is outside the statement: the "
-    "case is judged up to the entry before it; the remainder is executed, counted and not judged",
     "identical-time entries are redelivered duplicates: they add no occurrence and do not change the time",
+    "the reference remembers the times of the entries merged into the current (last) aggregate. An entry with the same "
+    "message/severity whose time is EARLIER than the aggregated latest time and equals one of those times is a "
+    "redelivered duplicate of an entry that was already counted: it adds no occurrence, does not change the time and "
+    "is not appended as a distinct entry (conservation: sum of occurrences + duplicates = entries fed)",
+    "an entry with the same message/severity and an earlier time that was NEVER merged into the current aggregate is "
+    "outside the statement: the case is judged up to the entry before it; the remainder is executed, counted and "
+    "not judged",
     "a repeated (message, severity) after a different entry is a distinct entry and is appended (order clause)",
 ]
 REQUIRED = {"batches_compared": 2000, "merges_checked": 1000, "identical_time_duplicates": 200,
-            "cross_batch_merges": 200, "conservation_checks": 2000, "via_handler_batches": 100}
+            "cross_batch_merges": 200, "conservation_checks": 2000, "via_handler_batches": 100,
+            "redelivered_earlier_time_duplicates": 2000, "redelivered_batches_with_earlier_times_judged": 500,
+            "partial_overlap_redeliveries_judged": 200, "via_handler_redelivered_earlier_time_duplicates": 50}
 
 MSGS = ("pump fault", "valve stuck", "pump fault ")   # third differs by a trailing blank only
 SEVS = (30, 40)
@@ -46,6 +57,11 @@ def gen_case(rnd: random.Random):
     t = 1000.0 + rnd.randint(0, 5) * 0.5
     entries = []
     cur = (rnd.choice(MSGS), rnd.choice(SEVS))
+    run_case = rnd.random() < 0.25
+    if run_case:
+        # a few arbitrary entries, then one run of repeats of a single entry with (mostly) increasing times
+        n = rnd.randint(0, 4)
+        early_p = 0.0
     for _ in range(n):
         if rnd.random() > stick:
             cur = (rnd.choice(MSGS), rnd.choice(SEVS)) if rnd.random() < 0.7 else (cur[0], rnd.choice(SEVS))
@@ -56,27 +72,56 @@ def gen_case(rnd: random.Random):
             t = t + rnd.choice([0.0, 0.0, 0.5, 1.0, 0.25, 3.0])
             tt = t
         entries.append([cur[0], tt, cur[1]])
+    if run_case:
+        cur = (rnd.choice(MSGS), rnd.choice(SEVS))
+        for _ in range(rnd.randint(3, 8)):
+            t = t + rnd.choice([0.0, 0.5, 1.0, 0.25, 3.0, 1.0])
+            entries.append([cur[0], t, cur[1]])
     # cut into batches
     batches = []
     i = 0
     while i < len(entries):
-        k = rnd.choice([0, 1, 1, 2, 3, 5])
+        k = rnd.choice([0, 1, 1, 2, 3, 5]) if not run_case else rnd.choice([1, 2, 3, 3, 5, 8])
         batches.append(entries[i:i + k])
         i += k
+    redeliveries = []
+    p_whole, p_overlap, p_two = (0.35, 0.15, 0.1) if not run_case else (0.5, 0.5, 0.3)
     # whole-batch redelivery (the engine resends a batch it got no reply for)
-    if rnd.random() < 0.35 and batches:
+    if rnd.random() < p_whole and batches:
         j = rnd.randrange(len(batches))
         batches.insert(j + 1, [list(e) for e in batches[j]])
-    return {"batches": batches}
+        redeliveries.append(["whole", j + 1])
+    # partially overlapping redelivery: the last k entries of a batch arrive again in front of the next batch
+    if rnd.random() < p_overlap and batches:
+        j = rnd.randrange(len(batches))
+        if batches[j]:
+            k = rnd.randint(1, len(batches[j]))
+            head = [list(e) for e in batches[j][-k:]]
+            if j + 1 < len(batches) and rnd.random() < 0.7:
+                batches[j + 1] = head + batches[j + 1]
+            else:
+                last = batches[j][-1]
+                tail = [[last[0], max(e[1] for b in batches for e in b) + rnd.choice([0.5, 1.0]), last[2]]] \
+                    if rnd.random() < 0.7 else []
+                batches.insert(j + 1, head + tail)
+            redeliveries.append(["overlap", j + 1, k])
+    # two consecutive batches again, as one
+    if rnd.random() < p_two and len(batches) >= 2:
+        j = rnd.randrange(len(batches) - 1)
+        batches.insert(j + 2, [list(e) for e in batches[j] + batches[j + 1]])
+        redeliveries.append(["two_as_one", j + 2])
+    return {"batches": batches, "redeliveries": redeliveries}
 
 
 class RefFold:
-    """The statement, literally."""
+    """The statement, literally; plus the set of times already merged into the current aggregate."""
 
     def __init__(self):
         self.entries: list[list] = []   # [message, severity, time, occurrences]
+        self.merged_times: set = set()  # times of the input entries merged into entries[-1]
         self.n_in = 0
         self.dups = 0
+        self.redelivered = 0
         self.merges = 0
         self.out_of_statement = False
 
@@ -88,13 +133,20 @@ class RefFold:
                 last[2] = t
                 last[3] += 1
                 self.merges += 1
+                self.merged_times.add(t)
                 return "merge"
             if t == last[2]:
                 self.dups += 1
                 return "dup"
+            if t in self.merged_times:
+                # an entry with exactly this time was counted into this aggregate before: redelivered duplicate
+                self.dups += 1
+                self.redelivered += 1
+                return "redelivered"
             self.out_of_statement = True
             return "earlier"
         self.entries.append([msg, sev, t, 1])
+        self.merged_times = {t}
         return "new"
 
 
@@ -143,6 +195,7 @@ async def check_case(case, res: Result, rig=None, eid=None):
     viol = None
     for bi, batch in enumerate(case["batches"]):
         first_in_batch = True
+        redelivered_in_batch = 0
         for msg, t, sev in batch:
             if judged:
                 had_entries = bool(ref.entries)
@@ -156,6 +209,11 @@ async def check_case(case, res: Result, rig=None, eid=None):
                         cross += 1
                 elif kind == "dup":
                     res.count("identical_time_duplicates")
+                elif kind == "redelivered":
+                    res.count("redelivered_earlier_time_duplicates")
+                    if rig is not None:
+                        res.count("via_handler_redelivered_earlier_time_duplicates")
+                    redelivered_in_batch += 1
             else:
                 res.count("entries_after_exclusion_not_judged")
             first_in_batch = False
@@ -175,13 +233,24 @@ async def check_case(case, res: Result, rig=None, eid=None):
         impl = _snapshot(log)
         res.count("batches_compared")
         n_batches_judged += 1
+        if redelivered_in_batch:
+            res.count("redelivered_batches_with_earlier_times_judged")
+            if any(r[0] == "overlap" and r[1] == bi for r in case.get("redeliveries", ())):
+                res.count("partial_overlap_redeliveries_judged")
         # independent conservation count on the implementation's output
         res.count("conservation_checks")
         total = sum(e[3] for e in impl)
         if total + ref.dups != ref.n_in:
             mech = "C35.entry_lost" if total + ref.dups < ref.n_in else "C35.occurrence_count_wrong"
-            viol = (mech, f"conservation broken after batch {bi}: sum(occurrences)={total} + identical-time "
-                          f"duplicates={ref.dups} != entries fed={ref.n_in}; aggregated={impl}")
+            if mech == "C35.occurrence_count_wrong" and redelivered_in_batch and ref.entries and impl and \
+                    [e[:2] for e in impl] == [e[:2] for e in ref.entries] and \
+                    [e[3] for e in impl[:-1]] == [e[3] for e in ref.entries[:-1]] and \
+                    0 < impl[-1][3] - ref.entries[-1][3] <= redelivered_in_batch:
+                # only the last aggregate is over-counted, by at most the number of redelivered earlier-time entries
+                mech = "C35.redelivered_earlier_time_entry_counted_again"
+            viol = (mech, f"conservation broken after batch {bi}: sum(occurrences)={total} + duplicates (identical time "
+                          f"or time of an already merged entry)={ref.dups} != entries fed={ref.n_in}; aggregated={impl} "
+                          f"expected={ref.entries}")
             break
         if impl != ref.entries:
             viol = (classify(impl, ref.entries), f"after batch {bi}: aggregated={impl} expected={ref.entries}")
